@@ -729,8 +729,8 @@ def run_case(ci, c):
         return run
     mcm_final = cfg2.mcm_config.mcm_method
     if devname == "null.qubit" and mcm_final is None:
-        mcm_final = "one-shot" if c["shots"] else "deferred"
-    run["cfg"] = {"dev": DEVICES.index(devname), "grad": {None: 0, "adjoint": 1, "backprop": 2, "device": 0}.get(c["grad"], 0),
+        mcm_final = "deferred"      # NullQubit.preprocess hands the config to DefaultQubit.preprocess without a circuit
+    run["cfg"] = {"dev": DEVICES.index(devname), "grad": {None: 0, "adjoint": 1, "backprop": 2, "device": 0}.get(cfg2.gradient_method, 0),
                   "mcm": {"deferred": 0, "one-shot": 1, "tree-traversal": 2, None: 0}.get(mcm_final if devname in ("default.qubit", "null.qubit") else "deferred", 0),
                   "max_workers": bool(getattr(dev, "_max_workers", None)), "readout": getattr(dev, "readout_err", None) is not None,
                   "check_clifford": bool(getattr(dev, "_check_clifford", True)), "jit": False}
@@ -840,7 +840,7 @@ def run_case(ci, c):
     run["n_final_ops"] = sum(len(t.operations) for t in batch)
     # ---- (b) execution vs the independent reference
     try:
-        if c["grad"] != "backprop":
+        if not (devname == "default.qubit" and c["grad"] == "backprop"):
             batch = [qp.transforms.convert_to_numpy_parameters(t)[0][0] for t in batch]
         res = dev.execute(tuple(batch), cfg2)
         for fns, sizes in reversed(posts):
@@ -889,7 +889,30 @@ def run_case(ci, c):
         else:
             err = compare(v, e, m["kind"])
         if not (err <= 1e-9):
-            mism.append({"m": mdesc[j], "got": jsonable(v), "ref": jsonable(e), "err": err})
+            rec = {"m": mdesc[j], "got": jsonable(v), "ref": jsonable(e), "err": err}
+            if dev.wires is None and (m["kind"] == "state" or (m["kind"] == "probs" and m["ws"] is None)) and len(batch) >= 1:
+                # without device wires a wire-less measurement is ordered by the wires of the EXECUTED tape
+                try:
+                    reg2 = list(batch[0].wires)
+                    if set(reg2) == set(reg):
+                        m2 = dict(m); m2["completed"] = reg2
+                        e2 = ref_results(simulate(ref, reg2), [m2], reg2)[0]
+                        g = np.asarray(v)
+                        err2 = abs(1 - abs(np.vdot(np.asarray(e2).reshape(-1), g.reshape(-1)))) if (phase_free and g.ndim == 1) else compare(v, e2, m["kind"])
+                        rec["matches_in_executed_tape_wire_order"] = bool(err2 <= 1e-9)
+                        rec["orig_order"] = [str(x) for x in reg]; rec["exec_order"] = [str(x) for x in reg2]
+                        if not err2 <= 1e-9 and len(reg) <= 5:
+                            import itertools
+                            for perm in itertools.permutations(reg):
+                                m2["completed"] = list(perm)
+                                e3 = ref_results(simulate(ref, list(perm)), [m2], list(perm))[0]
+                                err3 = abs(1 - abs(np.vdot(np.asarray(e3).reshape(-1), g.reshape(-1)))) if (phase_free and g.ndim == 1) else compare(v, e3, m["kind"])
+                                if err3 <= 1e-9:
+                                    rec["matches_in_wire_order"] = [str(x) for x in perm]
+                                    break
+                except Exception:
+                    pass
+            mism.append(rec)
     run["mismatch"] = mism
     # exact circuit for the Coq reference (unitary, representable, small register)
     if devname != "null.qubit" and all(it[0] == "U" for it in ref) and len(reg) <= 4:
@@ -920,7 +943,7 @@ def _alarm(sig, frm):
 
 
 signal.signal(signal.SIGALRM, _alarm)
-ncase = 150 if tier == "quick" else 1500
+ncase = 230 if tier == "quick" else 1500
 budget = 45 if tier == "quick" else 420
 runs = []
 for ci in (req.get("only") or range(ncase)):
